@@ -88,6 +88,103 @@ def arg_origin(prog, f, expr, ldefs):
     return R.receiver_origin(prog, f, expr, ldefs)
 
 
+CACHE_DECOS = ("lru_cache", "cache", "cached_property", "functools.lru_cache", "functools.cache", "functools.cached_property")
+MUTATORS = ("shuffle", "sort", "fill", "resize", "put", "partition", "itemset", "append", "extend", "insert", "pop", "remove", "clear", "update", "setdefault")
+_STATE_FIXTURE = """
+from functools import lru_cache
+import numpy
+@lru_cache(maxsize=8)
+def table(n):
+    return numpy.arange(n)
+def good(n, rng):
+    t = table(n).copy()
+    rng.shuffle(t)
+    return t
+def bad(n, rng):
+    t = table(n)
+    rng.shuffle(t)
+    return t
+"""
+
+
+def _cached_functions(tree):
+    out = {}
+    for n in ast.walk(tree):
+        if isinstance(n, (ast.FunctionDef, ast.AsyncFunctionDef)):
+            for d in n.decorator_list:
+                dd = d.func if isinstance(d, ast.Call) else d
+                if dump(dd) in CACHE_DECOS:
+                    out[n.name] = n
+    return out
+
+
+def _mutations_of_cached(tree, cached):
+    """(function node, call node, how) for every in-place mutation of a value obtained directly from a memoised function"""
+    hits = []
+    for fn in ast.walk(tree):
+        if not isinstance(fn, (ast.FunctionDef, ast.AsyncFunctionDef)):
+            continue
+        held = {}
+        for st in ast.walk(fn):
+            if isinstance(st, ast.Assign) and len(st.targets) == 1 and isinstance(st.targets[0], ast.Name) and isinstance(st.value, ast.Call):
+                c = st.value
+                nm = c.func.id if isinstance(c.func, ast.Name) else (c.func.attr if isinstance(c.func, ast.Attribute) else None)
+                if nm in cached:
+                    held[st.targets[0].id] = (nm, st)
+        if not held:
+            continue
+        for st in ast.walk(fn):
+            if isinstance(st, ast.Call) and isinstance(st.func, ast.Attribute) and st.func.attr in MUTATORS:
+                # x.sort() / rng.shuffle(x) / numpy.random.shuffle(x)
+                tgt = []
+                if isinstance(st.func.value, ast.Name) and st.func.value.id in held:
+                    tgt.append(st.func.value.id)
+                tgt += [a.id for a in st.args[:1] if isinstance(a, ast.Name) and a.id in held and st.func.attr in ("shuffle", "sort", "partition", "put", "fill")]
+                for t in tgt:
+                    hits.append((fn, st, "%s(%s)" % (dump(st.func), t), held[t][0]))
+            elif isinstance(st, (ast.Assign, ast.AugAssign)):
+                tg = st.targets[0] if isinstance(st, ast.Assign) else st.target
+                base = tg
+                while isinstance(base, ast.Subscript):
+                    base = base.value
+                if isinstance(tg, ast.Subscript) and isinstance(base, ast.Name) and base.id in held:
+                    hits.append((fn, st, dump(st)[:40], held[base.id][0]))
+                elif isinstance(st, ast.AugAssign) and isinstance(tg, ast.Name) and tg.id in held:
+                    hits.append((fn, st, dump(st)[:40], held[tg.id][0]))
+    return hits
+
+
+def check_state(prog, rep):
+    """R5-state: no value memoised across calls is mutated in place (a shuffled / sorted / written cached table makes a result depend on what ran before)"""
+    # the detector must fire on its own positive example and stay silent on the negative one (the rule usually has zero instances in the package)
+    ft = ast.parse(_STATE_FIXTURE)
+    fh = _mutations_of_cached(ft, _cached_functions(ft))
+    if [h[0].name for h in fh] != ["bad"]:
+        rep.unrec("R5-state", "<self-test>", "memoised-state detector does not separate its fixture functions: %s" % [h[0].name for h in fh])
+        return
+    rep.ok("R5-state", "<self-test>", "detector fires on the memoised-table-shuffled-in-place fixture and not on its copying twin")
+    ncached = 0
+    for m in sorted(prog.modules.values(), key=lambda m: m.name):
+        cached = _cached_functions(m.tree)
+        # memoised functions imported from other modules of the package
+        for local, imp in m.imports.items():
+            if imp[0] == "from" and imp[1] in prog.modules and imp[2] in _cached_functions(prog.modules[imp[1]].tree):
+                cached[local] = _cached_functions(prog.modules[imp[1]].tree)[imp[2]]
+        if not cached:
+            continue
+        ncached += len(cached)
+        hits = _mutations_of_cached(m.tree, cached)
+        for fn, node, how, src in hits:
+            rep.violate("R5-state", "%s:%s" % (m.name, fn.name), "`%s` mutates in place the value returned by the memoised function %s(): the shared table keeps the "
+                        "change, so the next call starts from a state that depends on every earlier call (results are no longer a function of the seed / generator)"
+                        % (how, src), "%s:%s" % (m.relpath, getattr(node, "lineno", 0)), "%s(...).copy() before mutating" % src, how)
+        for nm in cached:
+            if not any(h[3] == nm for h in hits):
+                rep.ok("R5-state", "%s:%s" % (m.name, nm), "memoised function: no caller mutates its result in place")
+    # module-level mutable containers written from inside functions of stochastic components are out of scope of this rule (none is used as a cache today)
+    rep.extra["memoised_functions"] = ncached
+
+
 def run(prog, rep, tier):
     rep.explanation = ("Whole-package entropy-source whitelist, order rule for prng.seed(), seed-argument rule for external "
                        "stochastic optimisers, and generator-flow analysis (receiver origin of every draw, rng= argument of "
@@ -107,6 +204,8 @@ def run(prog, rep, tier):
                  ("R4c-draws", 40)):
         rep.floor(r, n)
 
+    check_state(prog, rep)
+    rep.floor("R5-state", 1)
     comp_classes, comp_funcs, rng_funcs = component_funcs(prog, cg)
     rep.extra["components"] = {"classes_with_rng": len(comp_classes), "functions_with_rng_param": len(rng_funcs)}
     if len(comp_classes) < 20 or len(rng_funcs) < 8:
